@@ -236,6 +236,29 @@ func TestC06_ConcurrentDiscard(t *testing.T) {
 			}
 			last[pr] = i
 		}
+		if policy == "DiscardOldest" {
+			// the arriving item is always kept and only the oldest buffered ones go: what survives of
+			// one producer is a gap-free run ending with its last item (or nothing, if later arrivals
+			// of the others pushed all of it out). The very first delivery is the item the worker
+			// held while the gate was shut; it left the buffer early and is not part of the run.
+			kept := map[int64][]int64{}
+			for k, it := range g.Items() {
+				if k == 0 {
+					continue
+				}
+				kept[it.ID/1_000_000] = append(kept[it.ID/1_000_000], it.ID%1_000_000)
+			}
+			for pr, is := range kept {
+				for j := 1; j < len(is); j++ {
+					if is[j] != is[j-1]+1 {
+						t.Fatalf("VERIF-VIOLATION C06: DiscardOldest with %d producers: producer %d's item #%d was dropped although its older item #%d stayed buffered (the arriving item must be kept, the oldest dropped)", producers, pr, is[j-1]+1, is[j-1])
+					}
+				}
+				if is[len(is)-1] != int64(per-1) {
+					t.Fatalf("VERIF-VIOLATION C06: DiscardOldest with %d producers: producer %d's last item #%d was dropped although its older item #%d stayed buffered (the arriving item must be kept, the oldest dropped)", producers, pr, per-1, is[len(is)-1])
+				}
+			}
+		}
 	})
 }
 
